@@ -201,6 +201,50 @@ Qed.
 Corollary constify_idempotent v : pre v = true -> constify (constify v) = constify v.
 Proof. intros H. apply constify_id, constify_imm, H. Qed.
 
+(* ---------- _as_bytes / _as_tuple ---------- *)
+
+Theorem as_bytes_imm enc ml eok v r : as_bytes enc ml eok v = Ok r -> exists b, r = VBytes b.
+Proof.
+  unfold as_bytes.
+  destruct (match v with VStr b => if enc then Some b else None | VByteArray b => Some b
+                       | VBytes b => Some b | _ => None end) as [b|]; [|discriminate].
+  destruct (match ml with Some m => zlen b >? m | None => false end); [discriminate|].
+  destruct (negb eok && (zlen b =? 0)); [discriminate|].
+  intros E; inversion E. eauto.
+Qed.
+
+Lemma map_res_forall {A B} (f : A -> res B) (P : B -> Prop) l rs :
+  (forall x y, f x = Ok y -> P y) -> map_res f l = Ok rs -> Forall P rs.
+Proof.
+  intros Hf. revert rs. induction l as [|x l IH]; cbn; intros rs E.
+  - inversion E. constructor.
+  - destruct (f x) as [y| |] eqn:Ex; try discriminate.
+    destruct (map_res f l) as [ys| |]; try discriminate.
+    inversion E; subst. constructor; [eapply Hf, Ex|apply IH; reflexivity].
+Qed.
+
+(* whatever the caller passes (bytearray, list of bytearrays, ...), the field built by
+   _as_tuple(value, _as_bytes) is a tuple of bytes: deeply immutable *)
+Theorem as_tuple_bytes_imm enc ml eok v r :
+  as_tuple (as_bytes enc ml eok) v = Ok r -> imm r = true.
+Proof.
+  unfold as_tuple.
+  destruct (as_bytes enc ml eok v) as [r0| |] eqn:E0.
+  - intros E; inversion E; subst. destruct (as_bytes_imm _ _ _ _ _ E0) as [b ->]. reflexivity.
+  - destruct (elements v) as [l|]; [|discriminate].
+    destruct (map_res (as_bytes enc ml eok) l) as [rs| |] eqn:Em; try discriminate.
+    intros E; inversion E; subst. cbn. apply forallb_forall.
+    pose proof (map_res_forall _ (fun y => imm y = true) l rs
+                  (fun x y H => match as_bytes_imm _ _ _ _ _ H with ex_intro _ b Hb => eq_ind_r (fun y => imm y = true) eq_refl Hb end) Em) as HF.
+    rewrite Forall_forall in HF. exact HF.
+  - destruct (elements v) as [l|]; [|discriminate].
+    destruct (map_res (as_bytes enc ml eok) l) as [rs| |] eqn:Em; try discriminate.
+    intros E; inversion E; subst. cbn. apply forallb_forall.
+    pose proof (map_res_forall _ (fun y => imm y = true) l rs
+                  (fun x y H => match as_bytes_imm _ _ _ _ _ H with ex_intro _ b Hb => eq_ind_r (fun y => imm y = true) eq_refl Hb end) Em) as HF.
+    rewrite Forall_forall in HF. exact HF.
+Qed.
+
 (* constify passes objects it does not know through unchanged: a tuple of mutable objects
    (the options of an OPT record are dns.edns.Option objects) stays a tuple of mutable objects *)
 Theorem constify_opaque_refuted :
